@@ -1,6 +1,7 @@
 (* C17 — recorded history is complete, immutable and isolated from the caller (model side; the
    aliasing half is a run-time observation of the harness, see DESIGN). *)
 From TF Require Import Base EALoop EALoopProofs EALoopProofs2.
+From TF Require EAStore EAStoreProofs.
 Open Scope Q_scope.
 
 (* exactly one entry per executed generation with keep_history; nothing recorded without it *)
@@ -32,6 +33,32 @@ Theorem C17_history_prefix :
   exists ext, hist (step G P g2p nf k elitism keep_history first st gs) = hist st ++ ext.
 Proof. exact history_prefix. Qed.
 Print Assumptions C17_history_prefix.
+
+(* aliasing model (theories/EAStore.v): every object stored in the history and every caller-owned
+   object (init_population rows, *_args values) keeps its identity and its contents under ANY sequence
+   of optimizer operations (greedy in-place overwrite, elitism write, re-binding of the population,
+   record replacement, further snapshots, get_fittest(), caller writes into returned objects) *)
+Theorem C17_snapshot_immutable_and_caller_untouched : forall (V : Type) (dflt : V) ops (s : EAStore.st V) l,
+  EAStore.wf V s -> In l (EAStore.hist V s ++ EAStore.caller V s) ->
+  In l (EAStore.hist V (EAStore.run V dflt s ops) ++ EAStore.caller V (EAStore.run V dflt s ops)) /\
+  EAStore.rd V dflt (EAStore.heap V (EAStore.run V dflt s ops)) l = EAStore.rd V dflt (EAStore.heap V s) l.
+Proof. exact EAStoreProofs.history_immutable. Qed.
+Print Assumptions C17_snapshot_immutable_and_caller_untouched.
+
+(* objects returned by get_fittest() can be overwritten by the caller without affecting the record *)
+Theorem C17_get_fittest_isolated : forall (V : Type) (dflt : V) (s : EAStore.st V) k v, EAStore.wf V s ->
+  let s1 := EAStore.step V dflt s (EAStore.Get V) in
+  forall l, In l (EAStore.rcd V s) -> EAStore.rd V dflt (EAStore.heap V (EAStore.step V dflt s1 (EAStore.CallerWrite V k v))) l = EAStore.rd V dflt (EAStore.heap V s) l.
+Proof. exact EAStoreProofs.get_isolated. Qed.
+Print Assumptions C17_get_fittest_isolated.
+
+Example C17_store_nonvacuous :
+  let s0 := {| EAStore.heap := [10; 20; 30; 40]%Z; EAStore.pop := [0; 1]%nat; EAStore.rcd := []; EAStore.hist := []; EAStore.caller := [2; 3]%nat; EAStore.ret := [] |} in
+  let s := EAStore.run Z 0%Z s0 [EAStore.ReplaceRecord Z 1; EAStore.Snapshot Z; EAStore.PopWrite Z 1 99%Z; EAStore.ElitismWrite Z; EAStore.Get Z; EAStore.CallerWrite Z 0 (-1)%Z] in
+  map (EAStore.rd Z 0%Z (EAStore.heap Z s)) (EAStore.rcd Z s) = [20%Z] /\ map (EAStore.rd Z 0%Z (EAStore.heap Z s)) (EAStore.hist Z s) = [10; 20]%Z /\
+  map (EAStore.rd Z 0%Z (EAStore.heap Z s)) (EAStore.pop Z s) = [10; 20]%Z /\ map (EAStore.rd Z 0%Z (EAStore.heap Z s)) (EAStore.ret Z s) = [(-1)%Z].
+Proof. vm_compute. auto. Qed.
+Print Assumptions C17_store_nonvacuous.
 
 Example C17_nonvacuous :
   let var := fun st : state Z Z => [Z.of_nat (gens st); 1]%Z in
